@@ -24,11 +24,13 @@ DiffEvent ==
       changed == {n \in P \cap P2 : api[n] # api'[n]}
       n1 == CHOOSE n \in changed : TRUE
   IN IF now' # now THEN E("tick")
+     ELSE IF snap'.on # snap.on THEN [Ev0 EXCEPT !.ev = IF snap'.on THEN "lag_on" ELSE "lag_off", !.g = G]
      ELSE IF ctl' # ctl /\ api' = api THEN E("restart")
      ELSE IF pend' = pend + 1 THEN [Ev0 EXCEPT !.ev = "pod_arrive", !.g = G, !.a = 1, !.b = 1]
      ELSE IF \E n \in NodeIds : run'[n] = run[n] + 1 THEN [Ev0 EXCEPT !.ev = "pod_schedule", !.g = G, !.n = CHOOSE n \in NodeIds : run'[n] = run[n] + 1]
      ELSE IF \E n \in NodeIds : run'[n] = run[n] - 1 /\ P2 = P THEN [Ev0 EXCEPT !.ev = "pod_finish", !.g = G, !.n = CHOOSE n \in NodeIds : run'[n] = run[n] - 1]
      ELSE IF pend' = pend - 1 THEN [Ev0 EXCEPT !.ev = "pod_finish", !.g = G]
+     ELSE IF asg'.members # asg.members /\ P2 = P /\ asg.members \ asg'.members # {} THEN [Ev0 EXCEPT !.ev = "instance_gone", !.g = G, !.n = CHOOSE n \in asg.members : n \notin asg'.members]
      ELSE IF asg'.members # asg.members /\ P2 = P THEN [Ev0 EXCEPT !.ev = "launch", !.g = G, !.n = CHOOSE n \in asg'.members : n \notin asg.members]
      ELSE IF P2 \ P # {} THEN [Ev0 EXCEPT !.ev = "register", !.g = G, !.n = CHOOSE n \in P2 : n \notin P, !.a = KC, !.b = KM]
      ELSE IF P \ P2 # {} THEN EN("node_gone", CHOOSE n \in P : n \notin P2)
@@ -44,7 +46,7 @@ DiffEvent ==
                                             ELSE IF api'[n1].taint.at < now - 1000 THEN "zero" ELSE "old"]
 
 EnvStep == (Tick \/ PodArrive \/ PodSchedule \/ PodFinish \/ CloudLaunch \/ Register \/ Cordon \/ Uncordon \/ ExtForce \/ ExtUnforce
-            \/ Annotate \/ Unannotate \/ ExtTaint \/ ExtUntaint \/ NodeGone \/ AsgEdit \/ DesiredBump \/ Restart)
+            \/ Annotate \/ Unannotate \/ ExtTaint \/ ExtUntaint \/ NodeGone \/ AsgEdit \/ DesiredBump \/ InstanceGone \/ LagOn \/ LagOff \/ Restart)
            /\ hist' = Append(hist, DiffEvent)
 
 SimScan ==
@@ -53,7 +55,7 @@ SimScan ==
        /\ Assert(PropViolations(World, F, r) = {}, <<"PROPERTY VIOLATED ON THE MODEL", PropViolations(World, F, r)>>)
        /\ LET g2 == r.W.groups[G] IN
           /\ api' = g2.api /\ asg' = g2.asg /\ pc' = g2.pc /\ ctl' = g2.ctl /\ accepted' = g2.accepted /\ alive' = r.W.alive
-       /\ UNCHANGED <<now, pend, run>>
+       /\ UNCHANGED <<now, pend, run, snap>>
        /\ hist' = Append(hist, [E("scan") EXCEPT !.faults = SetToSortedSeq(F)])
 
 \* scans are favoured so that behaviours are not mostly environment noise
